@@ -44,6 +44,9 @@ GAS = ["SubsetGeneticAlgorithm", "RealGeneticAlgorithm", "IntegerGeneticAlgorith
        "NSGA2MemeticSubsetGeneticAlgorithm:NSGA2StochasticDescentSubsetGeneticAlgorithm",
        "NSGA2MemeticSubsetGeneticAlgorithm:NSGA2MutatorASubsetGeneticAlgorithm",
        "NSGA2MemeticSubsetGeneticAlgorithm:NSGA2MutatorBSubsetGeneticAlgorithm"]
+# boundary sizes of the subset problem handed to the subset GAs (subset = whole candidate set, one member, all but one)
+GAS += [g_ + "/" + z for g_ in ("SubsetGeneticAlgorithm", "NSGA2SubsetGeneticAlgorithm", "NSGA3SubsetGeneticAlgorithm") for z in ("every candidate selected", "single member", "all but one")]
+
 
 
 def dig(x):
@@ -94,12 +97,12 @@ class World:
         o = G_E_Phenotyping(self.mod, 2, 2, 1.0, 0.5, 1.0)
         self.prebuilt["G_E_Phenotyping"] = {"orig": o, "copy": _copy.copy(o), "deepcopy": _copy.deepcopy(o)}
 
-    def problem(self, enc, nobj, record):
+    def problem(self, enc, nobj, record, ndecn=3):
         P = importlib.import_module("pybrops.breed.prot.sel.prob.EstimatedBreedingValueSelectionProblem")
         cls = getattr(P, "EstimatedBreedingValue%sSelectionProblem" % enc)
         n = 8
         if enc == "Subset":
-            prob = cls(ebv=self.ebv, ndecn=3, decn_space=numpy.arange(n), decn_space_lower=numpy.repeat(0, 3), decn_space_upper=numpy.repeat(n - 1, 3),
+            prob = cls(ebv=self.ebv, ndecn=ndecn, decn_space=numpy.arange(n), decn_space_lower=numpy.repeat(0, ndecn), decn_space_upper=numpy.repeat(n - 1, ndecn),
                        nobj=nobj, obj_wt=numpy.ones(nobj), obj_trans=(None if nobj == 2 else _head1))
         else:
             lo, up = {"Real": (0.0, 1.0), "Integer": (0, 3), "Binary": (0, 1)}[enc]
@@ -210,12 +213,14 @@ def component(name, big=False):
         return f
     if name in GAS:
         def f(w, rng, _n=name):
-            mod, _, cn = _n.partition(":")
+            base, _, size = _n.partition("/")
+            mod, _, cn = base.partition(":")
             cls = getattr(importlib.import_module("pybrops.opt.algo." + mod), cn or mod)
             nobj = 2 if "NSGA" in _n else 1
             rec = []
             kw = {} if rng is None else {"rng": rng}
-            s = cls(ngen=3, pop_size=10, **kw).minimize(w.problem(enc_of(_n), nobj, rec))
+            nd = {"": 3, "every candidate selected": 8, "single member": 1, "all but one": 7}[size]
+            s = cls(ngen=3, pop_size=10, **kw).minimize(w.problem(enc_of(_n), nobj, rec, ndecn=nd))
             return (s, rec)
         return f
     if name == "apply_jitter":
@@ -280,7 +285,7 @@ def site_of(name):
     if name in CFGS:
         return name + ".sample_xconfig"
     if name in GAS or name == "SteepestDescentSubsetHillClimber":
-        return name.split(":")[-1] + ".minimize"
+        return name.split("/")[0].split(":")[-1] + ".minimize"
     return name
 
 
@@ -463,10 +468,11 @@ def case_explicit(ctx, c):
         untouched.append(u1 and gstate() == s0)
         res.append(dig((r, r2, tail)))
     site = site_of(name)
-    ctx.check("C08.explicit.depends", res[0] == res[1], site, "result depends only on the supplied generator", kind if name not in GAS else "explicit generator",
+    gacls = "explicit generator" + ("/subset size at a boundary of the candidate set" if "/" in name else "")
+    ctx.check("C08.explicit.depends", res[0] == res[1], site, "result depends only on the supplied generator", kind if name not in GAS else gacls,
               what="%s: same explicit generator state, different global seeds -> different outputs" % site,
               witness={"component": name, "rng": kind, "state": k, "digests": res}, coords=[c, "explicit"])
-    ctx.check("C08.explicit.global", all(untouched), site, "global Python and NumPy streams untouched", kind if name not in GAS else "explicit generator",
+    ctx.check("C08.explicit.global", all(untouched), site, "global Python and NumPy streams untouched", kind if name not in GAS else gacls,
               what="%s: global random/numpy.random state changed although an explicit generator was supplied" % site,
               witness={"component": name, "rng": kind}, coords=[c, "explicit"])
 
